@@ -428,7 +428,10 @@ class PrefetchedCourierServer(CourierServer):
   def _next_batch(self, batch_size: int = 0) -> bytes:
     """Get the next batch from the iterator."""
     self._last_heartbeat = time.time()
-    if self._generator is None:
+    # The batch and its end marker have to come from the same generator even
+    # when a new generator is initialized in the meantime.
+    generator = self._generator
+    if generator is None:
       e = TimeoutError(
           'Generator is not set, the worker might be killed previously, the'
           ' task normally will be restarted. This could be caused by worker'
@@ -443,9 +446,7 @@ class PrefetchedCourierServer(CourierServer):
       batch_size = lazy_fns.maybe_make(batch_size)
       # Elements dequeued before the generator's exception is met are kept:
       # they are returned in the same batch, followed by the exception.
-      result = self._generator.get_batch(
-          batch_size, block=True, keep_partial=True
-      )
+      result = generator.get_batch(batch_size, block=True, keep_partial=True)
     except Exception:  # pylint: disable=broad-exception-caught
       # The sequence of the result will always end with an exception.
       # Any non-StopIteration means the generator crashed. The exception
@@ -453,8 +454,8 @@ class PrefetchedCourierServer(CourierServer):
       pass
 
     # Generator is exahusted either normally or due to an exception.
-    if not self._generator:
-      if (e := self._generator.exception) is not None:
+    if not generator:
+      if (e := generator.exception) is not None:
         if self._shutdown_requested:
           # A worker that is shutting down only answers with the timeout.
           e = TimeoutError('Shutdown requested, cannot get next batch.')
@@ -465,7 +466,7 @@ class PrefetchedCourierServer(CourierServer):
         )
         result.append(e)
       else:
-        result.append(StopIteration(*self._generator.returned))
+        result.append(StopIteration(*generator.returned))
     return self._return_pickled(result)
 
   def set_up(self) -> None:
